@@ -198,19 +198,19 @@ _reg(Tool("max", "agg", (1, 1),
           lambda S, F, P, V: a.max(S[0], **_kw(key=F.get("key", _ABSENT), default=_opt(V, "default"))),
           lambda S, F, P, V: builtins.max(S[0], **_kw(key=F.get("key", _ABSENT), default=_opt(V, "default"))),
           optional_roles=(("key", "table"),), profiles=(I, N, "unorderable")))
-_reg(Tool("list", "agg", (1, 1),
-          lambda S, F, P, V: a.list(S[0]),
-          lambda S, F, P, V: builtins.list(S[0]), profiles=(I, N), streaming=False))
-_reg(Tool("tuple", "agg", (1, 1),
-          lambda S, F, P, V: a.tuple(S[0]),
-          lambda S, F, P, V: builtins.tuple(S[0]), profiles=(I, N), streaming=False))
-_reg(Tool("set", "agg", (1, 1),
-          lambda S, F, P, V: a.set(S[0]),
-          lambda S, F, P, V: builtins.set(S[0]), profiles=(I, N, "unhashable"),
+_reg(Tool("list", "agg", (0, 1),
+          lambda S, F, P, V: a.list(*S[:1]),
+          lambda S, F, P, V: builtins.list(*S[:1]), profiles=(I, N), streaming=False))
+_reg(Tool("tuple", "agg", (0, 1),
+          lambda S, F, P, V: a.tuple(*S[:1]),
+          lambda S, F, P, V: builtins.tuple(*S[:1]), profiles=(I, N), streaming=False))
+_reg(Tool("set", "agg", (0, 1),
+          lambda S, F, P, V: a.set(*S[:1]),
+          lambda S, F, P, V: builtins.set(*S[:1]), profiles=(I, N, "unhashable"),
           streaming=False))
-_reg(Tool("dict", "agg", (1, 1),
-          lambda S, F, P, V: a.dict(S[0], **V.get("kw", {})),
-          lambda S, F, P, V: builtins.dict(S[0], **V.get("kw", {})), profiles=("pairs",),
+_reg(Tool("dict", "agg", (0, 1),
+          lambda S, F, P, V: a.dict(*S[:1], **V.get("kw", {})),
+          lambda S, F, P, V: builtins.dict(*S[:1], **V.get("kw", {})), profiles=("pairs",),
           streaming=False))
 _reg(Tool("sorted", "agg", (1, 1),
           lambda S, F, P, V: a.sorted(S[0], key=F.get("key"), reverse=P["reverse"]),
